@@ -28,6 +28,19 @@ package http2
 //       -> "reservations counted == reservations outstanding" after 2 events (reserve; request refused/cancelled after
 //          stream-ID assignment), and on its own "connection at its limit does not take new requests" after 3 events.
 
+//   transport.go processSettingsNoWrite: default-limit fallback applied to every SETTINGS frame without
+//   MAX_CONCURRENT_STREAMS (seed C17-C) -> "connection at its limit does not take new requests" after 2 events
+//   (SETTINGS without the limit; request left open, m = 1).
+//
+// Events also include later SETTINGS frames from the server: without MAX_CONCURRENT_STREAMS (the advertised limit stays
+// in force) and with a new limit (raised, or lowered below the current count).
+//
+// KNOWN FINDING on the unchanged tree (C17-refused-request-returns-two-reservations, thorough tier: 4 events, e.g.
+// reserve; reserve; SETTINGS limit 3->1; request using a reservation): the request is refused at admission after
+// writeRequest already returned its reservation, and cleanupWriteRequest (cs.ID == 0) returns a second one that belongs
+// to the other holder: streamsReserved 0 with one reservation outstanding, CanTakeNewRequest true at the limit.
+// Native reproduction through the public API: repro/C17/.
+
 import (
 	"net/http"
 	"net/url"
@@ -48,7 +61,11 @@ type c17life struct {
 	open       []*c17req
 	lastWireID uint32 // stream ID of the last HEADERS frame seen on the wire
 	lastID     uint32 // last stream ID assigned to a request
+	lowered    bool   // the server lowered its limit at some point (streams opened under the old limit may exceed the new one)
+	kfStolen   bool   // known finding C17-refused-request-returns-two-reservations has struck (see request)
 }
+
+const c17kfStolen = "C17-refused-request-returns-two-reservations"
 
 const c17addr = "example.com:443"
 
@@ -82,17 +99,42 @@ func (l *c17life) check() {
 	streams, reserved, resets := len(cc.streams), cc.streamsReserved, cc.pendingResets
 	cc.mu.Unlock()
 	vfAssert(streams == len(l.open), "open streams == requests in flight")
-	vfAssert(reserved == l.ext, "reservations counted == reservations outstanding (each request returns exactly its own slot)")
+	vfAssertKF(reserved == l.ext, "reservations counted == reservations outstanding (each request returns exactly its own slot)", c17kfStolen, l.kfStolen)
 	vfAssert(resets >= 0, "pendingResets >= 0")
 	can := cc.CanTakeNewRequest()
 	if l.inUse() >= l.m {
 		vfReach("at-limit")
-		vfAssert(!can, "connection at its limit does not take new requests")
+		vfAssertKF(!can, "connection at its limit does not take new requests", c17kfStolen, l.kfStolen)
 	}
 	if l.inUse()+resets < l.m {
 		vfAssert(can, "usable connection below its limit takes new requests")
 	}
-	vfAssert(len(cc.streams) <= l.m, "open streams <= MAX_CONCURRENT_STREAMS")
+	vfAssert(l.lowered || len(cc.streams) <= l.m, "open streams <= MAX_CONCURRENT_STREAMS")
+}
+
+// settings delivers a later SETTINGS frame from the server. The ledger's limit l.m changes only when the frame carries
+// MAX_CONCURRENT_STREAMS (RFC 9113 §6.5.3: parameters not mentioned keep their value).
+func (l *c17life) settings() {
+	var ss []Setting
+	switch vfChoice("settings-kind", 2) {
+	case 0: // another parameter only (arbitrary valid value)
+		v := vfU32("initialWindowSize")
+		vfAssume(v <= 1<<31-1)
+		ss = append(ss, Setting{SettingInitialWindowSize, v})
+		vfReach("settings-without-limit")
+	case 1: // the limit changes (raised or lowered, possibly below the current count)
+		m := vfLen("newlimit", 1, 3)
+		vfAssume(m != l.m) // (repeating the current value is the same history as case 0: pruned)
+		if m < l.m {
+			l.lowered = true
+			vfReach("limit-lowered")
+		}
+		l.m = m
+		ss = append(ss, Setting{SettingMaxConcurrentStreams, uint32(m)})
+	}
+	if err := l.h.rl.processSettingsNoWrite(h2cSettingsFrame(ss...)); err != nil {
+		vfAssert(false, "later SETTINGS accepted")
+	}
 }
 
 func c17lifeRequest() *http.Request {
@@ -123,13 +165,17 @@ func (l *c17life) request() {
 		}
 		vfReach("pool-hit")
 		vfAssert(got == cc, "pool returns the cached connection")
-		vfAssert(!atLimit, "pool does not choose a connection at its limit")
+		vfAssertKF(!atLimit, "pool does not choose a connection at its limit", c17kfStolen, l.kfStolen)
 	case 1: // RoundTrip on the ClientConn by the holder of an earlier reservation
 		vfAssume(l.ext > 0) // (histories with a no-op step are prefixes of shorter ones: pruned)
 		l.ext--
 		vfReach("uses-reservation")
 	}
-	// from here on the request holds one slot until doRequest has finished
+	// from here on the request holds one slot until doRequest has finished; `others` = slots held by everybody else
+	others := l.inUse()
+	cc.mu.Lock()
+	resets0 := cc.pendingResets
+	cc.mu.Unlock()
 	r := &c17req{cs: h2cNewStream(cc), cancel: make(chan struct{})}
 	r.cs.reqCancel = r.cancel
 	var streamf func(*clientStream)
@@ -166,7 +212,17 @@ func (l *c17life) request() {
 		vfAssert(nh == 0, "failed request: no HEADERS on the wire")
 		if r.cs.ID == 0 {
 			vfReach("ended-before-stream")
-			vfAssert(mode == 0, "only the early cancel ends before a stream is created")
+			if mode != 0 {
+				// refused at admission (errClientConnUnusable, the Transport retries on another connection): right only
+				// if the server lowered its limit meanwhile and the other holders fill it (reachable from 4 events on)
+				vfAssert(l.lowered && others+resets0 >= l.m, "a request ends before a stream is created only by the early cancel or at a lowered limit")
+				if l.ext > 0 {
+					// KNOWN FINDING: writeRequest returned this request's reservation before awaitOpenSlotForStreamLocked
+					// refused it, and cleanupWriteRequest (cs.ID == 0) returns "it" a second time: a reservation that
+					// belongs to another holder is dropped from cc.streamsReserved.
+					l.kfStolen = true
+				}
+			}
 		} else {
 			vfReach("ended-after-stream-id-before-headers")
 			vfAssert(mode != 0, "early cancel gets no stream")
@@ -213,12 +269,12 @@ func VerifC17_lifecycle() {
 	}
 	K := 3 + vfTier()
 	for step := 0; step < K; step++ {
-		switch vfChoice("op", 5) {
+		switch vfChoice("op", 6) {
 		case 0: // somebody reserves a slot for later use (net/http ClientConn API, or a pool caller that has not started yet)
 			atLimit := l.inUse() >= l.m
 			if cc.ReserveNewRequest() {
 				vfReach("reserved")
-				vfAssert(!atLimit, "no reservation on a connection at its limit")
+				vfAssertKF(!atLimit, "no reservation on a connection at its limit", c17kfStolen, l.kfStolen)
 				l.ext++
 			} else {
 				vfReach("reserve-refused")
@@ -236,6 +292,8 @@ func VerifC17_lifecycle() {
 			vfAssume(resets > 0)
 			vfReach("ping-ack")
 			h.rl.processPing(&PingFrame{FrameHeader: FrameHeader{valid: true, Type: FramePing, Flags: FlagPingAck}})
+		case 5: // a later SETTINGS frame from the server
+			l.settings()
 		}
 		l.check()
 	}
